@@ -3,6 +3,7 @@ package props
 import (
 	"go/token"
 	"go/types"
+	"sort"
 	"strings"
 
 	"golang.org/x/tools/go/ssa"
@@ -50,6 +51,7 @@ func runC14(c *Ctx) {
 	}
 	ruleWriterInvariant(c, p, "C14")
 	ruleVectoredEquiv(c, p, "C14.equiv")
+	ruleExitGuards(c, p, "C14.guard")
 	c.R.Assumptions = append(c.R.Assumptions,
 		"net.Buffers.WriteTo writes the slices in order and consumes them; short writes are its concern (standard library)",
 		"decided: each induction step of the writer invariant and the language equality of the vectored and buffered encoders; not decided: byte values")
@@ -425,4 +427,107 @@ func variadicElems(v ssa.Value) []ssa.Value {
 		}
 	}
 	return out
+}
+
+// ruleExitGuards: the empty-column shortcut of WriteColumn is the encoder's shortcut.
+func ruleExitGuards(c *Ctx, p *core.Program, rule string) {
+	c.R.Rule(rule, "for every column type, each condition under which WriteColumn returns at once without emitting anything is also a condition under which EncodeColumn does (conditions are canonicalised: operator, constants, access paths from the receiver, len / Rows() with trivial Rows methods inlined): a vectored shortcut taken on a different quantity (the key column's rows instead of the map's rows) drops bytes the buffered encoder emits")
+	cfg := p.Cfg.Name
+	var canon func(v ssa.Value, d int) string
+	rowsOf := func(path string, callee *ssa.Function, d int) string {
+		// inline `func (c T) Rows() int { return len(c.F) }` / `return c.F.Rows()`
+		if callee != nil && len(callee.Blocks) == 1 && d < 4 {
+			if ret, ok := callee.Blocks[0].Instrs[len(callee.Blocks[0].Instrs)-1].(*ssa.Return); ok && len(ret.Results) == 1 {
+				inner := canon(ret.Results[0], d+1)
+				if strings.HasPrefix(inner, "len(recv") || strings.HasPrefix(inner, "recv") {
+					return strings.Replace(inner, "recv", path, 1)
+				}
+			}
+		}
+		return path + ".Rows()"
+	}
+	canon = func(v ssa.Value, d int) string {
+		if d > 8 {
+			return "?"
+		}
+		switch x := v.(type) {
+		case *ssa.Const:
+			if x.Value == nil {
+				return "nil"
+			}
+			return x.Value.String()
+		case *ssa.BinOp:
+			return canon(x.X, d+1) + " " + x.Op.String() + " " + canon(x.Y, d+1)
+		case *ssa.Convert:
+			return canon(x.X, d+1)
+		case *ssa.Call:
+			if b, ok := x.Call.Value.(*ssa.Builtin); ok && b.Name() == "len" {
+				return "len(" + accessPath(x.Call.Args[0], 0) + ")"
+			}
+			if x.Call.IsInvoke() && x.Call.Method.Name() == "Rows" {
+				return accessPath(x.Call.Value, 0) + ".Rows()"
+			}
+			if f := core.CalleeFunc(x); f != nil && f.Name() == "Rows" && len(x.Call.Args) == 1 {
+				return rowsOf(accessPath(x.Call.Args[0], 0), core.StaticFn(x), d)
+			}
+		}
+		return accessPath(v, 0)
+	}
+	bareReturn := func(b *ssa.BasicBlock) bool {
+		for _, in := range b.Instrs {
+			switch in.(type) {
+			case *ssa.Return, *ssa.RunDefers, *ssa.DebugRef:
+			default:
+				return false
+			}
+		}
+		return true
+	}
+	guards := func(fn *ssa.Function) map[string]bool {
+		out := map[string]bool{}
+		for _, b := range fn.Blocks {
+			ifi, ok := b.Instrs[len(b.Instrs)-1].(*ssa.If)
+			if !ok {
+				continue
+			}
+			for si, sc := range b.Succs {
+				if bareReturn(sc) {
+					k := canon(ifi.Cond, 0)
+					if si == 1 {
+						k = "!(" + k + ")"
+					}
+					out[k] = true
+				}
+			}
+		}
+		return out
+	}
+	n := 0
+	for _, ct := range columnTypes(p) {
+		enc, wr := methodOf(p, ct, "EncodeColumn"), methodOf(p, ct, "WriteColumn")
+		if enc == nil || wr == nil || enc.Blocks == nil || wr.Blocks == nil {
+			continue
+		}
+		n++
+		ge, gw := guards(enc), guards(wr)
+		key := "column/" + ct.Obj().Name()
+		var extra []string
+		for k := range gw {
+			if !ge[k] {
+				extra = append(extra, k)
+			}
+		}
+		sort.Strings(extra)
+		if len(extra) > 0 && len(ge) > 0 {
+			var have []string
+			for k := range ge {
+				have = append(have, k)
+			}
+			sort.Strings(have)
+			c.R.Bad(rule, key, cfg, p.Pos(wr.Pos()), sprintf("WriteColumn returns without output when [%s]; EncodeColumn only when [%s]: for a column where the two differ the vectored path omits bytes", strings.Join(extra, "; "), strings.Join(have, "; ")))
+		} else {
+			c.R.Ok(rule, key, cfg, p.Pos(wr.Pos()), sprintf("%d shortcut(s), all shared with EncodeColumn", len(gw)))
+		}
+	}
+	c.R.Floor(rule, cfg, n, 30)
 }
